@@ -126,6 +126,11 @@ func checkThree(c *wk.Ctx, stream string, i int, t *rc.Type, v interface{}, rng 
 	class := c03Class(t)
 	detail := map[string]interface{}{"signature": sig, "reference": hx(ref, 96), "class": class}
 	gv := toGo(t, v)
+	if (gv.Kind() == reflect.Slice || gv.Kind() == reflect.Map) && gv.Len() == 0 && rng.Intn(2) == 0 {
+		// the zero value of a list / map type (a nil slice or map) IS the empty list / map
+		gv = reflect.Zero(gv.Type())
+		c.Count("nil_top_level_containers", 1)
+	}
 	var buf bytes.Buffer
 	var err error
 	pv, stack := wk.Try(func() {
